@@ -741,6 +741,10 @@ func (x *Exec) execSlice(st *State, in *ssa.Slice) {
 }
 
 func (x *Exec) makeInterface(st *State, v *Val, from, to types.Type) *Val {
+	if v.K == VPath && v.Path.Cell != nil {
+		// the address of a local is boxed (e.g. rows.Scan(&x)): callees may write it from now on
+		x.escaped[v.Path.Cell] = true
+	}
 	_, s := classify(to)
 	if s == SErr {
 		// concrete error value: opaque non-nil error determined by the payload
